@@ -7,7 +7,10 @@
      GStep w   worker w makes the next instrumented call of the handler it is running (one cache call or one store
                callback); if that was the handler's last call, the answer is delivered (SetR) and the worker takes
                the next request from its queue;
-     GStop     WorkerGrp.Stop: every queue is closed (workers keep draining what was accepted).
+     GStop     WorkerGrp.Stop: every queue is closed (workers keep draining what was accepted);
+     GCaller i the goroutine of caller i itself makes an instrumented call other than the cache read of DoGet's
+               fast path: never enabled - the label exists so that an observer can write down an implementation
+               that does such a thing (it is then rejected by the replay, and the monitor still judges coherence).
    Every schedule of callers and workers is a list of such labels; [grun] replays one and returns what each label
    lets an observer see. *)
 From Coq Require Import ZArith List Bool Lia.
@@ -90,7 +93,7 @@ Definition wstep (s : wrk) : option (wrk * answer) :=
 Definition wstop (s : wrk) : wrk := mkWrk (k_st s) (k_queue s) (k_cur s) true (k_committed s).
 
 (* ------------------------------------------------------------------ the group *)
-Inductive glabel := GCall (j : job) | GStep (w : Z) | GStop.
+Inductive glabel := GCall (j : job) | GStep (w : Z) | GStop | GCaller (id : Z).
 
 Definition mach := Z -> wrk.
 Definition updm (g : mach) (w : Z) (s : wrk) : mach := fun x => if x =? w then s else g x.
@@ -108,6 +111,7 @@ Definition gstep (c : gcfg) (deep : nat) (g : mach) (l : glabel) : option (mach 
       if (w <? 0) || (g_n c <=? w) then None
       else match wstep (g w) with Some (s', a) => Some (updm g w s', a) | None => None end
   | GStop => Some (fun w => wstop (g w), AStopped)
+  | GCaller _ => None        (* in this machine a caller's goroutine never makes a cache write or a store callback *)
   end.
 
 (* a run: the labels together with what each of them let the observer see *)
